@@ -295,8 +295,7 @@ static int recv_events(m_ctx_t *c, int timeout) {
                 m_mem_unref(evt);
             }
         } else {
-            /* Forward error to below handling code */
-            err = EAGAIN;
+            /* Source in error, or removed by a previous callback of this same batch: nothing to deliver */
             M_WARN("Received message without proper source: src -> %p\n", p);
         }
     }
